@@ -38,12 +38,20 @@ impl Component {
     }
 }
 
-#[derive(Clone, Copy, Debug)]
+#[derive(Clone, Copy)]
 pub struct Path {
     c: [Component; CAP],
     n: usize,
 }
-pub type PathBuf = Path;
+
+/// Owned path. A distinct type that derefs to `Path`, as in std.
+#[derive(Clone, Copy)]
+pub struct PathBuf {
+    p: Path,
+}
+
+#[derive(Debug, Clone, PartialEq, Eq)]
+pub struct StripPrefixError(());
 
 impl PartialEq for Path {
     fn eq(&self, o: &Path) -> bool {
@@ -61,6 +69,129 @@ impl PartialEq for Path {
     }
 }
 impl Eq for Path {}
+impl PartialEq for PathBuf {
+    fn eq(&self, o: &PathBuf) -> bool {
+        self.p == o.p
+    }
+}
+impl Eq for PathBuf {}
+impl PartialEq<Path> for PathBuf {
+    fn eq(&self, o: &Path) -> bool {
+        self.p == *o
+    }
+}
+impl PartialEq<&Path> for PathBuf {
+    fn eq(&self, o: &&Path) -> bool {
+        self.p == **o
+    }
+}
+impl PartialEq<PathBuf> for Path {
+    fn eq(&self, o: &PathBuf) -> bool {
+        *self == o.p
+    }
+}
+impl PartialEq<PathBuf> for &Path {
+    fn eq(&self, o: &PathBuf) -> bool {
+        **self == o.p
+    }
+}
+impl core::hash::Hash for Path {
+    fn hash<H: core::hash::Hasher>(&self, h: &mut H) {
+        let mut i = 0;
+        while i < self.n {
+            self.c[i].hash(h);
+            i += 1;
+        }
+    }
+}
+impl core::hash::Hash for PathBuf {
+    fn hash<H: core::hash::Hasher>(&self, h: &mut H) {
+        self.p.hash(h)
+    }
+}
+impl core::fmt::Debug for Path {
+    fn fmt(&self, f: &mut core::fmt::Formatter<'_>) -> core::fmt::Result {
+        f.write_str("\"")?;
+        let mut i = 0;
+        while i < self.n {
+            match self.c[i] {
+                Component::RootDir => f.write_str("/")?,
+                Component::CurDir => f.write_str("./")?,
+                Component::ParentDir => f.write_str("../")?,
+                Component::Normal(n) => write!(f, "{}/", name_text(n))?,
+                Component::Prefix(_) => {}
+            }
+            i += 1;
+        }
+        f.write_str("\"")
+    }
+}
+impl core::fmt::Debug for PathBuf {
+    fn fmt(&self, f: &mut core::fmt::Formatter<'_>) -> core::fmt::Result {
+        self.p.fmt(f)
+    }
+}
+
+// ---- names of `Normal` components that come from string literals (`Path::new("a/b")`, push("x")) ----
+// Harness inputs never go through here (they are component lists); this exists so that code which
+// spells paths as string literals still compiles and runs against the model (e.g. the repository's
+// own unit tests of relative_path.rs, which are run against the model natively).
+const MAXNAMES: usize = 64;
+static mut NAMES: [Option<&'static str>; MAXNAMES] = [None; MAXNAMES];
+fn intern(s: &str) -> Name {
+    unsafe {
+        let names = &mut *core::ptr::addr_of_mut!(NAMES);
+        let mut i = 0;
+        while i < MAXNAMES {
+            match names[i] {
+                Some(t) => {
+                    if t == s {
+                        return Name(100 + i as u8);
+                    }
+                }
+                None => {
+                    names[i] = Some(Box::leak(s.to_owned().into_boxed_str()));
+                    return Name(100 + i as u8);
+                }
+            }
+            i += 1;
+        }
+    }
+    panic!("pathmodel: name table full");
+}
+fn name_text(n: Name) -> &'static str {
+    if n.0 >= 100 {
+        unsafe { (*core::ptr::addr_of!(NAMES))[(n.0 - 100) as usize].unwrap_or("?") }
+    } else {
+        match n.0 {
+            1 => "x",
+            2 => "y",
+            _ => "z",
+        }
+    }
+}
+fn parse_into(s: &str, p: &mut Path) {
+    let b = s.as_bytes();
+    if !b.is_empty() && b[0] == b'/' {
+        p.push_component(Component::RootDir);
+    }
+    let mut start = 0;
+    let mut i = 0;
+    while i <= b.len() {
+        if i == b.len() || b[i] == b'/' {
+            let seg = &s[start..i];
+            if seg == "." {
+                p.push_component(Component::CurDir);
+            } else if seg == ".." {
+                p.push_component(Component::ParentDir);
+            } else if !seg.is_empty() {
+                p.push_component(Component::Normal(intern(seg)));
+            }
+            start = i + 1;
+        }
+        i += 1;
+    }
+}
 
 pub trait PushArg {
     fn push_onto(&self, p: &mut Path);
@@ -89,22 +220,45 @@ impl PushArg for Path {
         (&self).push_onto(p)
     }
 }
-
-impl Default for Path {
-    fn default() -> Self {
-        Self::new()
+impl PushArg for PathBuf {
+    fn push_onto(&self, p: &mut Path) {
+        (&self.p).push_onto(p)
+    }
+}
+impl PushArg for &PathBuf {
+    fn push_onto(&self, p: &mut Path) {
+        (&self.p).push_onto(p)
+    }
+}
+impl PushArg for &str {
+    fn push_onto(&self, p: &mut Path) {
+        parse_into(self, p)
+    }
+}
+impl PushArg for &String {
+    fn push_onto(&self, p: &mut Path) {
+        parse_into(self.as_str(), p)
+    }
+}
+impl PushArg for String {
+    fn push_onto(&self, p: &mut Path) {
+        parse_into(self.as_str(), p)
     }
 }
 
 impl Path {
-    pub const fn new() -> Path {
-        Path { c: [Component::CurDir; CAP], n: 0 }
+    const EMPTY: Path = Path { c: [Component::CurDir; CAP], n: 0 };
+    /// `Path::new("a/b")`: parses a string spelling (literals only; see the note on names above)
+    pub fn new<S: AsRef<str> + ?Sized>(s: &S) -> &'static Path {
+        let mut p = Path::EMPTY;
+        parse_into(s.as_ref(), &mut p);
+        Box::leak(Box::new(p))
     }
-    pub fn from_components(cs: &[Component]) -> Path {
-        let mut p = Path::new();
+    pub fn from_components(cs: &[Component]) -> PathBuf {
+        let mut p = PathBuf::new();
         let mut i = 0;
         while i < cs.len() {
-            p.push_component(cs[i]);
+            p.push(cs[i]);
             i += 1;
         }
         p
@@ -120,13 +274,16 @@ impl Path {
         self.c[i]
     }
     pub fn to_path_buf(&self) -> PathBuf {
-        *self
+        PathBuf { p: *self }
     }
-    pub fn as_path(&self) -> &Path {
-        self
+    pub fn to_owned(&self) -> PathBuf {
+        PathBuf { p: *self }
     }
     pub fn is_absolute(&self) -> bool {
         self.n > 0 && matches!(self.c[0], Component::RootDir)
+    }
+    pub fn is_relative(&self) -> bool {
+        !self.is_absolute()
     }
     pub fn has_root(&self) -> bool {
         self.is_absolute()
@@ -135,7 +292,6 @@ impl Path {
         match c {
             Component::RootDir | Component::Prefix(_) => {
                 // pushing an absolute path replaces the current one
-                self.n = 0;
                 self.c[0] = c;
                 self.n = 1;
             }
@@ -153,12 +309,7 @@ impl Path {
             }
         }
     }
-    pub fn push<P: PushArg>(&mut self, p: P) {
-        p.push_onto(self)
-    }
-    /// std: "Truncates self to self.parent(). Returns false and does nothing if self.parent() is None."
-    /// parent() is None for the empty path and for a path that ends in a root.
-    pub fn pop(&mut self) -> bool {
+    fn pop_inner(&mut self) -> bool {
         if self.n == 0 {
             return false;
         }
@@ -171,36 +322,162 @@ impl Path {
         }
     }
     pub fn components(&self) -> Components<'_> {
-        Components { p: self, i: 0 }
+        Components { p: self, i: 0, j: self.n }
+    }
+    pub fn iter(&self) -> Components<'_> {
+        self.components()
     }
     pub fn join<P: PushArg>(&self, p: P) -> PathBuf {
-        let mut r = *self;
+        let mut r = self.to_path_buf();
         r.push(p);
         r
     }
-    pub fn parent(&self) -> Option<Path> {
+    /// std: the path without its final component, None for the empty path and for a root
+    pub fn parent(&self) -> Option<&'static Path> {
         let mut r = *self;
-        if r.pop() { Some(r) } else { None }
+        if r.pop_inner() { Some(Box::leak(Box::new(r))) } else { None }
+    }
+    /// std: the final component if it is a normal one (None if the path ends in `..` or is a root)
+    pub fn file_name(&self) -> Option<CompStr> {
+        if self.n == 0 {
+            return None;
+        }
+        match self.c[self.n - 1] {
+            c @ Component::Normal(_) => Some(CompStr(c)),
+            _ => None,
+        }
+    }
+    pub fn starts_with<P: PushArg>(&self, base: P) -> bool {
+        let mut b = Path::EMPTY;
+        base.push_onto(&mut b);
+        if b.n > self.n {
+            return false;
+        }
+        let mut i = 0;
+        while i < b.n {
+            if self.c[i] != b.c[i] {
+                return false;
+            }
+            i += 1;
+        }
+        true
+    }
+    pub fn ends_with<P: PushArg>(&self, child: P) -> bool {
+        let mut b = Path::EMPTY;
+        child.push_onto(&mut b);
+        if b.n > self.n || (b.is_absolute() && b.n != self.n) {
+            return false;
+        }
+        let mut i = 0;
+        while i < b.n {
+            if self.c[self.n - b.n + i] != b.c[i] {
+                return false;
+            }
+            i += 1;
+        }
+        true
+    }
+    /// std: "Returns a path that, when joined onto base, yields self"; Err if base is not a prefix
+    pub fn strip_prefix<P: PushArg>(&self, base: P) -> Result<&'static Path, StripPrefixError> {
+        let mut b = Path::EMPTY;
+        base.push_onto(&mut b);
+        if !self.starts_with(&b) {
+            return Err(StripPrefixError(()));
+        }
+        let mut r = Path::EMPTY;
+        let mut i = b.n;
+        while i < self.n {
+            // raw copy: the remainder of a path keeps its components as they are
+            r.c[r.n] = self.c[i];
+            r.n += 1;
+            i += 1;
+        }
+        Ok(Box::leak(Box::new(r)))
     }
 }
 
+impl PathBuf {
+    pub const fn new() -> PathBuf {
+        PathBuf { p: Path::EMPTY }
+    }
+    pub fn as_path(&self) -> &Path {
+        &self.p
+    }
+    pub fn push<P: PushArg>(&mut self, p: P) {
+        p.push_onto(&mut self.p)
+    }
+    /// std: "Truncates self to self.parent(). Returns false and does nothing if self.parent() is None."
+    pub fn pop(&mut self) -> bool {
+        self.p.pop_inner()
+    }
+    pub fn from<S: AsRef<str>>(s: S) -> PathBuf {
+        let mut p = Path::EMPTY;
+        parse_into(s.as_ref(), &mut p);
+        PathBuf { p }
+    }
+}
+impl Default for PathBuf {
+    fn default() -> Self {
+        Self::new()
+    }
+}
+impl core::ops::Deref for PathBuf {
+    type Target = Path;
+    fn deref(&self) -> &Path {
+        &self.p
+    }
+}
 impl AsRef<Path> for Path {
     fn as_ref(&self) -> &Path {
         self
     }
 }
+impl AsRef<Path> for PathBuf {
+    fn as_ref(&self) -> &Path {
+        &self.p
+    }
+}
+impl core::borrow::Borrow<Path> for PathBuf {
+    fn borrow(&self) -> &Path {
+        &self.p
+    }
+}
 
+#[derive(Clone)]
 pub struct Components<'a> {
     p: &'a Path,
     i: usize,
+    j: usize,
+}
+impl<'a> Components<'a> {
+    pub fn as_path(&self) -> &'static Path {
+        let mut r = Path::EMPTY;
+        let mut k = self.i;
+        while k < self.j {
+            r.c[r.n] = self.p.c[k];
+            r.n += 1;
+            k += 1;
+        }
+        Box::leak(Box::new(r))
+    }
 }
 impl<'a> Iterator for Components<'a> {
     type Item = Component;
     fn next(&mut self) -> Option<Component> {
-        if self.i < self.p.n {
+        if self.i < self.j {
             let c = self.p.c[self.i];
             self.i += 1;
             Some(c)
+        } else {
+            None
+        }
+    }
+}
+impl<'a> DoubleEndedIterator for Components<'a> {
+    fn next_back(&mut self) -> Option<Component> {
+        if self.i < self.j {
+            self.j -= 1;
+            Some(self.p.c[self.j])
         } else {
             None
         }
@@ -252,8 +529,8 @@ mod tests {
             })
             .collect()
     }
-    fn model_of(root: bool, cs: &[Component]) -> Path {
-        let mut p = Path::new();
+    fn model_of(root: bool, cs: &[Component]) -> PathBuf {
+        let mut p = PathBuf::new();
         if root {
             p.push(Component::RootDir);
         }
@@ -316,10 +593,13 @@ mod tests {
                         let mut ma = model_of(root_a, a);
                         let mb = model_of(root_b, b);
                         ma.push(&mb);
+                        // the string route of the model (Path::new on the same spelling) agrees too
+                        let ms = Path::new(&sb);
+                        assert_eq!(std_comps(sp::Path::new(&sb)).len(), ms.components().count(), "parse {sb:?}");
                         assert_eq!(std_comps(&spa), ma.components().collect::<Vec<_>>(), "{sa:?}.push({sb:?})");
                         // component-wise push as done by normalize_path / relative_path
                         let mut spc = sp::PathBuf::new();
-                        let mut mc = Path::new();
+                        let mut mc = PathBuf::new();
                         for c in sp::Path::new(&sa).components() {
                             spc.push(c.as_os_str());
                         }
